@@ -78,9 +78,8 @@ type ChanV struct {
 	cap    int
 	closed bool
 	et     types.Type
-	// waiting senders for unbuffered channels
-	sendq  []Value
-	takers []*bool
+	recvq  []*waiter
+	sendw  []*waiter
 }
 
 // Cell is a unit of addressable storage.
